@@ -220,9 +220,9 @@ def impl_build():
         for s in srcs:
             o = os.path.join(d, os.path.basename(s)[:-4] + ".o")
             objs.append(o)
-            cmd = "g++ -std=c++17 -fPIC %s %s -I%s -I%s -I%s -c %s -o %s" % (
+            cmd = "g++ -std=c++17 -fPIC %s %s -I%s -I%s -I%s -I%s -c %s -o %s" % (
                 SAN, flags.strip(), os.path.join(REPO, "src", "include"), os.path.join(lib, "src"),
-                os.path.join(VERIF, "harness"), s, o)
+                os.path.join(REPO, "src", "src"), os.path.join(VERIF, "harness"), s, o)
             procs.append((s, subprocess.Popen(cmd, shell=True, stdout=subprocess.PIPE, stderr=subprocess.STDOUT, text=True)))
         errs = ""
         for s, p in procs:
